@@ -31,6 +31,7 @@ mutual
     | .attr n ty _ => n :: FTy.spellings ty
     | .attrReadOnly n ty => n :: FTy.spellings ty
     | .attrRW r w ty _ => r :: w :: FTy.spellings ty
+    | .attrReq n ty => n :: FTy.spellings ty
     | .text ty => FTy.spellings ty
     | .enumChild .. => []
     | .tagChild _ _ _ _ skip _ _ _ => skip
@@ -38,6 +39,7 @@ mutual
     | .many h fs _ => h.tag :: (h.extra.map (·.1) ++ h.extra.map (·.2) ++ namesFs fs)
     | .strSet h => [h.tag]
     | .formValue a _ _ vh _ _ oh ofs _ => a :: vh.tag :: oh.tag :: (boolTrues ++ ["0".toList] ++ namesFs ofs)
+    | .rest _ excl => excl.filterMap (·.tag)
   def namesFs : List Field → List Str
     | [] => []
     | f :: fs => namesF f ++ namesFs fs
@@ -51,6 +53,7 @@ mutual
     | .many h fs _ => h.ns :: nssFs fs
     | .strSet h => [h.ns]
     | .formValue _ _ _ vh _ _ oh ofs _ => vh.ns :: oh.ns :: nssFs ofs
+    | .rest _ excl => excl.filterMap (·.ns)
     | _ => []
   def nssFs : List Field → List Str
     | [] => []
@@ -85,6 +88,22 @@ def formSrcOnly : List String := ["Unknown form type", "", "-1", "media", "heigh
 
 /-- the explicit per-class exceptions (reviewed by hand; everything not listed must match exactly) -/
 def ignoreTable : List (String × Ignore) := [
+  -- <x/> is the holder element of the harness
+  ("JingleRtpEncryption", { schemaOnly := ["x"] }),
+  -- schemaOnly: the hint tags come from the HINT_TYPES table, BoB / reactions / JMI / call invites are claimed through is…() predicates of
+  -- other classes; srcOnly: parts of extensions that are claimed but not modelled (MIX nick, EME, delay, XHTML-IM), `lang` (= xml:lang for QDom)
+  ("Message", { schemaOnly := ["no-permanent-store", "no-store", "no-copy", "store", "data", "reactions"],
+                srcOnly := ["nick", "namespace", "name", "stamp", "yyyyMMddThh:mm:ss", "</body>", " xmlns=\"http://www.w3.org/1999/xhtml\"", "lang",
+                            "file-too-large", "max-file-size", "retry"],
+                nsSchemaOnly := ["jabber:client", "urn:xmpp:bob", "urn:xmpp:jingle-message:0", "urn:xmpp:reactions:0", "urn:xmpp:call-invites:0"],
+                nsSrcOnly := ["http://www.w3.org/1999/xhtml", "urn:xmpp:http:upload:0"] }),
+  -- read and never written (`ext`, `lang` = how QDom finds xml:lang), claimed but not modelled (vCard update photo, Muji), XEP-0363 error children
+  ("Presence", { srcOnly := ["ext", "photo", "preparing", "content", "lang", "file-too-large", "max-file-size", "retry", "stamp"],
+                 nsSchemaOnly := ["jabber:client"], nsSrcOnly := ["urn:xmpp:http:upload:0"] }),
+  -- QXmppStanza::parse reads `lang` (finds nothing) and the XEP-0033 addresses, which QXmppIq never writes (they stay in the
+  -- rest); the XEP-0363 children of the error are not modelled; jabber:client is the stream's namespace
+  ("Iq", { srcOnly := ["lang", "addresses", "address", "file-too-large", "max-file-size", "retry", "stamp"],
+           nsSchemaOnly := ["jabber:client"], nsSrcOnly := ["urn:xmpp:http:upload:0"] }),
   -- QXmppPubSubSubscription::parse / toXml serve three namespaces; each schema describes one of them
   ("PubSubSubscription", { srcOnly := ["expiry"], nsSrcOnly := ["http://jabber.org/protocol/pubsub#event"] }),
   ("PubSubSubscriptionEvent", { srcOnly := ["subscribe-options", "required"], nsSrcOnly := ["http://jabber.org/protocol/pubsub"] }),
